@@ -189,6 +189,8 @@ func TestVerifC19(t *testing.T) {
 	keys := []string{"name", "namespace", "id", "uid", "qosclass", "pod/name", "pod/namespace", "pod/qosclass", "pod/id", "pod/uid", "pod/labels/app", "pod/labels/io.test/x.y",
 		"labels/l", "labels/a.b/c", "labels/missing", "tags/t", "tags/u", "tags/missing", "/name", "pod//name",
 		":name:namespace", ":,-name,pod/name", ":;.name;namespace", ":::name:tags/t:labels/missing", ":|_pod/qosclass|pod/labels/app|qosclass", ":/.name/namespace", ":ab", "::",
+		// joint keys of falling arity one after the other (4, 3, 2 sub-keys; evaluation must not depend on what was evaluated before)
+		":,+name,namespace,pod/name,pod/labels/app", ":,+name,namespace,pod/name", ":,+name,namespace",
 		"", "foo", "name/x", "pod", "labels", "tags", "pod/foo", "pod/pod/name", "pod/tags/t", "qosclass/x", ":name:foo"}
 	ops := []resmgr.Operator{resmgr.Equals, resmgr.NotEqual, resmgr.In, resmgr.NotIn, resmgr.Exists, resmgr.NotExist, resmgr.AlwaysTrue,
 		resmgr.Matches, resmgr.MatchesNot, resmgr.MatchesAny, resmgr.MatchesNone, resmgr.Operator("Bogus")}
